@@ -87,7 +87,10 @@ fn main() {
         for p in PREDS {
             let len = cli.tier.pick(3u32, 5);
             let total = 3usize.pow(len);
-            for code in 0..2 * total {
+            for code in 0..4 * total {
+                // every grid point with and without an event listener on the layer
+                let with_listener = code >= 2 * total;
+                let code = code % (2 * total);
                 let predicate_first = code >= total;
                 let code = code % total;
                 let script: Vec<Out> = (0..len).map(|i| outs[(code / 3usize.pow(i)) % 3]).collect();
@@ -141,6 +144,13 @@ fn main() {
                     Pred::Reject => b.handle(|_e: &InnerErr| false),
                     Pred::ByKind => b.handle(|e: &InnerErr| e.kind == 0),
                     };
+                }
+                let events = Arc::new(AtomicU32::new(0));
+                if with_listener {
+                    let ev = events.clone();
+                    b = b.on_event(move |_e| {
+                        ev.fetch_add(1, Ordering::SeqCst);
+                    });
                 }
                 let layer = b.build();
                 let mut svc = layer.layer(GatedInner::new(w.inner.clone()));
